@@ -7,11 +7,18 @@ Property theorems only (helper lemmas: `TF/Proofs/PolyDiv.lean`, shared core `TF
 
 Notation.  `K` is an arbitrary field, `FK = FieldOps.ofField K root` its operation record; a polynomial is its
 coefficient **storage** `List K` (lowest degree first, stored leading zeros allowed) and `denote : List K → K[X]` is the
-polynomial it stands for.  The model functions (`TF/Model/PolyDiv.lean`) follow the control flow of
-`twenty-first/src/math/polynomial.rs`; `none` is a Rust panic.  `/` and `%` on `K[X]` are Mathlib's Euclidean
-quotient and remainder.  Every dispatch threshold (`FAST_REDUCE_MAKES_SENSE_MULTIPLE`, `FAST_REDUCE_CUTOFF_THRESHOLD`,
-`FORMAL_POWER_SERIES_INVERSE_CUTOFF`, `CLEAN_DIVIDE_CUTOFF_THRESHOLD`, the literal 4 of `fast_reduce`) is a universally
-quantified parameter.  The model is tied to the Rust code by the correspondence family `polyd`.
+polynomial it stands for.  The model functions (`TF/Model/PolyDiv.lean`, on the shared core `TF/Model/Poly.lean`) follow
+the control flow of `twenty-first/src/math/polynomial.rs`; `none` is a Rust panic.  `/` and `%` on `K[X]` are Mathlib's
+Euclidean quotient and remainder.  Every dispatch threshold (`FAST_REDUCE_MAKES_SENSE_MULTIPLE`,
+`FAST_REDUCE_CUTOFF_THRESHOLD`, `FORMAL_POWER_SERIES_INVERSE_CUTOFF`, `CLEAN_DIVIDE_CUTOFF_THRESHOLD`, the literal 4 of
+`fast_reduce`) is a universally quantified parameter, so the theorems cover the production values (512 for clean
+division), the `cfg(test)` value 0 and every other value.
+
+The NTT-based strategies take the transform pair as a parameter `N : NttOps`; their theorems assume `NttDft N ω`
+(`TF/Proofs/PolyDiv.lean`): `ntt l` is the list of evaluations of `l` at the powers of a primitive `|l|`-th root of
+unity `ω |l|`, `intt` is its inverse, the roots for different lengths are compatible — the statement of property C06.
+`clean_divide` is stated for an arbitrary field extension `L/K` (`lift = algebraMap`), every non-zero offset.
+The model is tied to the Rust code by the correspondence family `polyd` (both fields, production build).
 -/
 open Polynomial
 
@@ -49,6 +56,14 @@ theorem naive_divide_panics_iff (a d : List K) : naiveDivide FK a d = none ↔ d
     exact absurd h1 (by simp)
   · exact naiveDivide_zero root a d
 example : denote ([0, 0] : List ℚ) = 0 := by simp
+
+/-- `divide` is `naive_divide` ("for no practical parameter set is the NTT-based algorithm faster") -/
+theorem divide_spec (a d : List K) (hd : denote d ≠ 0) :
+    ∃ q r, divide FK a d = some (q, r) ∧ denote q = denote a / denote d ∧ denote r = denote a % denote d := by
+  obtain ⟨q, r, h1, _, _, h4, h5⟩ := naive_divide_spec root a d hd
+  exact ⟨q, r, h1, h4, h5⟩
+example : denote ([0, 0, 7] : List ℚ) ≠ 0 := by
+  intro h; have := congrArg (fun p => p.coeff 2) h; simp at this
 
 /-- the `Div` operator -/
 theorem div_spec (a d : List K) (hd : denote d ≠ 0) :
@@ -205,6 +220,22 @@ theorem fast_reduce_spec (N : NttOps K) (ω : Nat → K) (hN : NttDft N ω) (cut
 example : denote ([3, 0, 1] : List ℚ) ≠ 0 := by
   intro h; have := congrArg (fun p => p.coeff 0) h; simp at this
 
+/-- `fast_reduce` panics for the zero modulus -/
+theorem fast_reduce_zero_modulus (N : NttOps K) (cutoff stage2 : Nat) (a m : List K) (hm : denote m = 0) :
+    fastReduce FK N cutoff stage2 a m = none := by
+  unfold fastReduce
+  have hdeg := degree_spec root m
+  rw [if_pos hm] at hdeg
+  have hds := degSucc_spec root m
+  rw [if_pos hm] at hds
+  rw [hdeg, if_neg (by decide)]
+  have hge : ¬ Model.Poly.degree FK a < -1 := by
+    rw [degree_eq_degSucc]; omega
+  rw [if_neg hge]
+  unfold shiftFactorNtt
+  rw [hds]
+example : denote ([0] : List ℚ) = 0 := by simp
+
 /-- **every reduction strategy returns the same remainder**: `reduce` for every dividend, every non-zero modulus,
     every storage and every value of the three thresholds -/
 theorem reduce_spec_all_arms (N : NttOps K) (ω : Nat → K) (hN : NttDft N ω) (makesSense cutoff stage2 : Nat)
@@ -249,6 +280,27 @@ theorem clean_divide_spec {L : Type} [Field L] [Algebra K L] (rootL : Nat → Op
   exact ⟨q, h1, h2, EuclideanDomain.eq_div_of_mul_eq_left hd h2⟩
 example : denote ([1, 1] : List ℚ) ∣ denote ([0, 1, 1] : List ℚ) :=
   ⟨X, by simp; ring⟩
+
+/-- the Montgomery batch inversion inside `clean_divide`: element-wise inverses when no input is zero, and a panic
+    exactly when some input is zero — which is why a divisor with a root on the evaluation coset needs the
+    long-division fallback (defect F9 before the repair) -/
+theorem batch_inversion_spec {L : Type} [Field L] (rootL : Nat → Option L) (l : List L) :
+    (batchInversion (FieldOps.ofField L rootL) l = none ↔ ∃ y ∈ l, y = 0) ∧
+    ((∀ y ∈ l, y ≠ 0) → batchInversion (FieldOps.ofField L rootL) l = some (l.map (fun y => y⁻¹))) := by
+  refine ⟨?_, batchInversion_spec rootL l⟩
+  constructor
+  · intro h
+    by_contra hne
+    have hall : ∀ y ∈ l, y ≠ 0 := fun y hy h0 => hne ⟨y, hy, h0⟩
+    rw [batchInversion_spec rootL l hall] at h
+    exact absurd h (by simp)
+  · rintro ⟨y, hy, h0⟩
+    unfold batchInversion
+    have : l.any (FieldOps.ofField L rootL).isZero = true := by
+      rw [List.any_eq_true]
+      exact ⟨y, hy, (FieldOps.ofField_isZero rootL y).2 h0⟩
+    rw [this]; rfl
+example : ∀ y ∈ ([2, 3] : List ℚ), y ≠ 0 := by simp
 
 /-- below the cut-off (every cut-off value; in the production build every divisor of degree < 512) `clean_divide` is
     long division: it returns the Euclidean quotient also when the division is not clean -/
